@@ -214,7 +214,7 @@ def who_writes_instance(ctx, db):
         return False
     found = who(db, pred)
     allowed = {'cocls::coro_queue::install_queue_and_call'} | {n for n in found if n.startswith('cocls::coro_queue::install_queue_and_call(')}
-    check_who(ctx, rid, found, allowed, 'write of coro_queue::instance')
+    check_who(ctx, rid, found, allowed, 'write of coro_queue::instance', db=db)
 
 
 # ready-queue operation -> functions allowed to perform it
